@@ -522,6 +522,59 @@ def fire_and_forget(ctx):
     peer.lose()
 
 
+def proxy_declared_returns(ctx):
+    """Calls through a remote-object proxy whose two interfaces declare the same method name with different return
+    signatures: every call is judged against the declaration it resolves to - the named interface, or the first listed one
+    when none is named - whatever was called before on that proxy."""
+    from txdbus import interface as I_
+    from txdbus import objects as O_
+    case = {'kind': 'proxy-returns'}
+    peer = clientfix.Peer().ready()
+    conn = peer.proto
+    ia = I_.DBusInterface('org.verif.c08.A', I_.Method('Get', returns='s'), I_.Method('Only', returns='u'), noRegister=True)
+    ib = I_.DBusInterface('org.verif.c08.B', I_.Method('Get', returns='i'), noRegister=True)
+    out = clientfix.Outcome(conn.getRemoteObject('org.verif.Peer', '/obj', [ia, ib]))
+    if out.fired != 1 or out.results[0][0] != 'ok':
+        ctx.report(None, 'getRemoteObject with two explicit interfaces: %r' % (out.results,), {}, case)
+        return
+    proxy = out.results[0][1]
+    decl = {'org.verif.c08.A': 's', 'org.verif.c08.B': 'i'}
+    plan = [('org.verif.c08.B', 'i'), (None, 's'), (None, 'i'), ('org.verif.c08.A', 's'), ('org.verif.c08.B', 's'), (None, 's'),
+            ('org.verif.c08.B', 'i'), (None, 'i'), ('org.verif.c08.A', 'i'), (None, 's')]
+    for k, (named, reply_sig) in enumerate(plan):
+        peer.take()
+        kw = {'interface': named} if named else {}
+        try:
+            o = clientfix.Outcome(proxy.callRemote('Get', **kw))
+        except Exception as e:
+            ctx.report(None, 'proxy.callRemote(Get, %r) raised %r' % (kw, e), {'step': k}, case)
+            return
+        sent = [m for m in peer.take() if m.fields.get('member') == 'Get']
+        ctx.count('evaluations')
+        ctx.count('proxy_return_probes')
+        want_iface = named or 'org.verif.c08.A'
+        w = {'step': k, 'history': plan[:k + 1], 'sent_interface': [m.fields.get('interface') for m in sent],
+             'expected_interface': want_iface, 'reply_signature': reply_sig}
+        if len(sent) != 1 or sent[0].fields.get('interface') != want_iface:
+            ctx.report('proxy-call-misdirected', 'step %d: Get %s went out under interface %r, expected %s' % (
+                k, 'naming ' + named if named else 'without an interface', w['sent_interface'], want_iface), w, case)
+            return
+        body = ['text'] if reply_sig == 's' else [13]
+        peer.send(RM.build(RM.METHOD_RETURN, 900 + k, {'reply_serial': sent[0].serial}, reply_sig, body))
+        fits = decl[want_iface] == reply_sig
+        good = o.fired == 1 and ((fits and o.results[0] == ('ok', body[0])) or
+                                 (not fits and o.results[0][0] == 'err' and isinstance(o.results[0][1].value, E.RemoteError)))
+        if not good:
+            w['completion'] = [(a, repr(b.value if a == 'err' else b)[:100]) for a, b in o.results]
+            ctx.report('wrong-completion', 'step %d: Get resolved to %s (declared to return %r) was answered with a %r reply and '
+                       'completed with %r' % (k, want_iface, decl[want_iface], reply_sig, w['completion']), w, case)
+            return
+    if conn._pendingCalls or len(CLOCK.getDelayedCalls()):
+        ctx.report('bookkeeping-left', 'after the proxy calls: %d pending entries, %d timers' % (
+            len(conn._pendingCalls), len(CLOCK.getDelayedCalls())), {}, case)
+    peer.lose()
+
+
 def synchronous_replies(ctx):
     """An in-process peer (loop-back transport, embedded bus) answers while the call is still being written: the reply
     arrives re-entrantly from inside transport.write().  The call completes once with that reply all the same, and no
@@ -691,6 +744,7 @@ def run(ctx):
         local_failures(ctx)
         synchronous_replies(ctx)
         fire_and_forget(ctx)
+        proxy_declared_returns(ctx)
     ctx.sample({'calls': [c.describe() for c in build_calls(random.Random(1), 2, [('R', 'D'), ('T', 'L')])],
                 'order': [[0, 'R'], [1, 'T'], ['U', 'E'], [0, 'D'], [1, 'L'], ['X', 'X']]})
     for k in ('first_return', 'first_error', 'first_timeout', 'first_loss'):
@@ -703,7 +757,7 @@ def replay(ctx, rp):
     CLOCK = clientfix.install_clock()
     w = rp.get('witness') or {}
     kind = (rp.get('case') or {}).get('kind')
-    special = {'fire-and-forget': fire_and_forget, 'sync-reply': synchronous_replies, 'long-history': long_history,
+    special = {'fire-and-forget': fire_and_forget, 'proxy-returns': proxy_declared_returns, 'sync-reply': synchronous_replies, 'long-history': long_history,
                'local-failure': local_failures}
     if kind in special:
         special[kind](ctx)
